@@ -5,6 +5,7 @@ import (
 	"encoding/json"
 	"os"
 	"path/filepath"
+	"time"
 )
 
 func readLines(path string) []string {
@@ -26,4 +27,39 @@ func readLines(path string) []string {
 func writeHist(h map[string]int) {
 	b, _ := json.Marshal(h)
 	os.WriteFile(filepath.Join(*fOut, "hist.json"), b, 0644)
+}
+
+// ---- waiting: conditions are polled, never assumed after a fixed nap; naps that cannot be avoided are scaled by how
+// slowly this machine schedules right now (measured once per process)
+
+var loadFactor = measureLoad()
+
+func measureLoad() float64 {
+	t0 := time.Now()
+	for i := 0; i < 20; i++ {
+		time.Sleep(time.Millisecond)
+	}
+	f := float64(time.Since(t0)) / float64(22*time.Millisecond)
+	if f < 1 {
+		f = 1
+	}
+	if f > 25 {
+		f = 25
+	}
+	return f
+}
+
+func settle(d time.Duration) { time.Sleep(time.Duration(float64(d) * loadFactor)) }
+
+func waitFor(max time.Duration, cond func() bool) bool {
+	deadline := time.Now().Add(time.Duration(float64(max) * loadFactor))
+	for {
+		if cond() {
+			return true
+		}
+		if time.Now().After(deadline) {
+			return false
+		}
+		time.Sleep(2 * time.Millisecond)
+	}
 }
